@@ -15,7 +15,8 @@ RULE = ("random histories over finite and infinite streams with event counts, ga
         "tracks, max_tracks changes, named re-schedules, unschedule/clear/mute/unmute, stop-when-done on and off; real Timeline "
         "vs Lean model on len(tracks)/track identities after every operation, the tick at which tick() raises StopIteration and all "
         "device calls; plus a Python-side oracle for the limit (never more tracks than max_tracks after a refused/accepted "
-        "schedule) and for events-after-removal. non-trivial = a stream ended, a count was hit, a limit/name/stop-when-done was in play")
+        "schedule) and for events-after-removal. non-trivial = a stream ended, a count was hit, a limit/name/stop-when-done was in play"
+        " Also (implementation-only oracles): muted interpolated tracks; the run(stop_when_done=...) keyword; the stop tick of a stop-when-done session with automations / LFOs on the timeline (same tick and calls as without them).")
 ASSUMPTIONS = ["track identity is observed through ids assigned in creation order by the harness"]
 
 PROF = sched_gen.profile(
